@@ -531,6 +531,13 @@ def gen_slice(rng, tier):
                                                                     'prof': {'kind': 'arect', 'lo': [-7, 2], 'hi': [1, 2]}}]})
     cases.append({'shape': [5, 5, 5], 'cls': 'perm_exact', 'items': [{'M': _mat_json([[0, 0, 1], [1, 0, 0], [0, 1, 0]]), 'shift': [0, 1],
                                                                       'prof': {'kind': 'arect', 'lo': [-1, 2], 'hi': [5, 2]}}]})
+    # thin volumes (z extent smaller than the support of the profile, which is smaller than the largest extent): the profile has to be followed
+    # over its whole support whichever axis the slice normal points along (added after round-2 seeded change C20-b2)
+    for shape, M in (([2, 3, 9], [[0, 0, 1], [1, 0, 0], [0, 1, 0]]), ([2, 9, 3], [[0, 1, 0], [0, 0, 1], [1, 0, 0]]), ([1, 4, 8], [[1, 0, 0], [0, 1, 0], [0, 0, 1]]),
+                     ([2, 3, 9], [[1, 0, 0], [0, 1, 0], [0, 0, 1]])):
+        for prof in ({'kind': 'rect', 'h': [11, 2]}, {'kind': 'smoothed0', 'fwhm': [5, 1]}, {'kind': 'arect', 'lo': [-1, 2], 'hi': [9, 2]}):
+            cases.append({'shape': shape, 'cls': 'perm_exact' if _is_exact_perm(_mat_frac(_mat_json(M))) else 'perm_inexact',
+                          'items': [{'M': _mat_json(M), 'shift': [0, 1], 'prof': prof}]})
     n = 14 if tier == 'quick' else 220
     for i in range(n):
         cls = ['identity', 'perm_exact', 'pyth', 'perm_exact', 'pyth'][i % 5]
